@@ -302,9 +302,7 @@ func checkC01(r *vlib.Run) int {
 	st, evals := runCorr(r, cfg)
 	r.Require(st.userActions > 1000, "fewer than 1000 UserActions observed")
 	r.Require(st.maxOpen >= 3, "never had 3 sessions open at once")
-	if r.Thorough() {
-		daemonCorrelation(r, "C01")
-	}
+	daemonCorrelation(r, "C01")
 	r.Assumptions = []string{"identities, session ids and PIDs are unique per history (reuse is C09)",
 		"raw-level histories complete before the first 500 ms reassembler maintenance tick (otherwise retried, then inconclusive)"}
 	return r.Finish(evals, st.shapes.Len(), "histories of logins/LOGIN records/events/credential disposals/cleanups: all sequences of the stated length over 2 sessions (every prefix checked), plus seeded random multi-session histories at the tracker API and through Auditd.Read; distinct = distinct operation-kind sequences; non-trivial = at least one session had both halves delivered")
@@ -380,9 +378,7 @@ func checkC02(r *vlib.Run) int {
 	r.Set("concurrent_delivery_runs", nConc)
 	r.Require(st.flushGE2 > 100, "fewer than 100 hold-queue flushes with >= 2 events")
 	r.Require(st.multiPending > 100, "fewer than 100 histories with two sessions pending at once")
-	if r.Thorough() {
-		daemonCorrelation(r, "C02")
-	}
+	daemonCorrelation(r, "C02")
 	r.Assumptions = []string{"order is the order of delivery to the correlator; through Auditd.Read this equals line order because every history finishes before the first maintenance tick",
 		"events after a session's credential-disposal record are removed from both expected and observed lists (left unspecified by C04)"}
 	return r.Finish(evals, st.shapes.Len(), "as C01 with the login placed at every split point of its session's events, 1-4 sessions pending at once; distinct = distinct operation-kind sequences")
@@ -417,9 +413,7 @@ func checkC04(r *vlib.Run) int {
 		r.Require(st.uncorrSent[k] > 0, "no "+k+" event was delivered")
 	}
 	r.Require(st.userActions > 1000, "fewer than 1000 UserActions observed")
-	if r.Thorough() {
-		daemonCorrelation(r, "C04")
-	}
+	daemonCorrelation(r, "C04")
 	r.Assumptions = []string{"the oracle is evaluated after every operation: emissions so far must belong to sessions whose LOGIN record and login were both delivered by then"}
 	return r.Finish(evals, st.shapes.Len(), "histories mixing correlated sessions with session-less, unset-session, unknown-session, non-LOGIN-opened, login-less and session-less halves; safety checked after every operation; distinct = distinct operation-kind sequences")
 }
